@@ -167,6 +167,46 @@ func dumpExpr(e ir.Expression) string {
 		b.WriteString(")")
 		return b.String()
 	}
+	// image expressions: the kind, with the handles of the operand expressions after `@` (checked for range and
+	// backward reference; their values are outside the Core mirror)
+	var ops []ir.ExpressionHandle
+	opt := func(h *ir.ExpressionHandle) {
+		if h != nil {
+			ops = append(ops, *h)
+		}
+	}
+	switch k := e.Kind.(type) {
+	case ir.ExprImageQuery:
+		ops = append(ops, k.Image)
+		if q, ok := k.Query.(ir.ImageQuerySize); ok {
+			opt(q.Level)
+		}
+	case ir.ExprImageLoad:
+		ops = append(ops, k.Image, k.Coordinate)
+		opt(k.ArrayIndex)
+		opt(k.Sample)
+		opt(k.Level)
+	case ir.ExprImageSample:
+		ops = append(ops, k.Image, k.Sampler, k.Coordinate)
+		opt(k.ArrayIndex)
+		opt(k.Offset)
+		opt(k.DepthRef)
+		switch lv := k.Level.(type) {
+		case ir.SampleLevelExact:
+			ops = append(ops, lv.Level)
+		case ir.SampleLevelBias:
+			ops = append(ops, lv.Bias)
+		case ir.SampleLevelGradient:
+			ops = append(ops, lv.X, lv.Y)
+		}
+	}
+	if len(ops) > 0 {
+		hs := make([]string, len(ops))
+		for i, h := range ops {
+			hs[i] = fmt.Sprint(h)
+		}
+		return fmt.Sprintf("(other %s)", q(tyName(e.Kind)+"@"+strings.Join(hs, ",")))
+	}
 	return fmt.Sprintf("(other %s)", q(tyName(e.Kind)))
 }
 
